@@ -71,8 +71,7 @@ fn push(out: &mut Vec<Case>, spec: &CtxSpec, src: String, want: Option<String>, 
     }
 }
 
-fn subsets(max: usize) -> Vec<Vec<usize>> {
-    let n = ALPHABET.len();
+fn subsets_of(n: usize, max: usize) -> Vec<Vec<usize>> {
     let mut out = vec![];
     for mask in 0u32..(1 << n) {
         if (mask.count_ones() as usize) <= max {
@@ -80,6 +79,45 @@ fn subsets(max: usize) -> Vec<Vec<usize>> {
         }
     }
     out
+}
+
+const EXTREME: [K; 9] = [K::I(-1), K::I(i64::MIN), K::I(i64::MAX), K::I(0), K::U(0), K::U(9223372036854775808), K::U(u64::MAX), K::S(""), K::S("é")];
+const EXTREME_QUERIES: [K; 12] = [K::I(-1), K::I(-2), K::I(i64::MIN), K::I(i64::MAX), K::I(0), K::U(0), K::U(9223372036854775807), K::U(9223372036854775808), K::U(u64::MAX), K::S(""), K::S("é"), K::B(false)];
+
+fn map_cases(out: &mut Vec<Case>, tier: Tier, alphabet: &[K], queries: &[K], max_keys: usize) {
+    let default = CtxSpec::default_ctx();
+    for (si, subset) in subsets_of(alphabet.len(), max_keys).iter().enumerate() {
+        let keys: Vec<&K> = subset.iter().map(|i| &alphabet[*i]).collect();
+        let lit = format!("{{{}}}", keys.iter().enumerate().map(|(j, k)| format!("{}: {}", k.src(), 10 + j)).collect::<Vec<_>>().join(", "));
+        let mut hm = HashMap::new();
+        for (j, k) in keys.iter().enumerate() {
+            hm.insert(k.key(), Value::Int(10 + j as i64));
+        }
+        let mut spec = CtxSpec::default_ctx();
+        spec.vars.push(("m".into(), Value::Map(Map { map: Arc::new(hm) })));
+        // quick tier: literal form for every subset, variable form for every third
+        let forms: Vec<(&CtxSpec, String, &'static str)> = if tier == Tier::Thorough || si % 3 == 0 { vec![(&default, lit.clone(), "literal"), (&spec, "m".to_string(), "variable")] } else { vec![(&default, lit.clone(), "literal")] };
+        for (sp, m, form) in forms {
+            for q in queries {
+                // presence: the typed key, or its numeric twin
+                let present = keys.iter().any(|k| k.same(q));
+                let tag = if keys.is_empty() { "empty" } else { "map" };
+                let src = format!("[{} in {m}, {m}.contains({}), {m}[{}] != null]", q.src(), q.src(), q.src());
+                push(out, sp, src, Some(format!("(ok (list {} {} {}))", b(present), b(present), b(present))), vec![tag, form]);
+                if let K::S(name) = q.clone() { if name.is_empty() || !name.is_ascii() { continue; }
+                    let src = format!("has({m}.{name})");
+                    push(out, sp, src, Some(format!("(ok {})", b(present))), vec![tag, form, "has"]);
+                    if present {
+                        let src = format!("{m}.{name} == {m}['{name}']");
+                        push(out, sp, src, Some(format!("(ok {})", b(true))), vec![tag, form, "select"]);
+                    }
+                }
+            }
+            // the map contains exactly the entries written
+            let src = format!("size({m})");
+            push(out, sp, src, Some(format!("(ok (int {}))", keys.len())), vec![if keys.is_empty() { "empty" } else { "map" }, form, "size"]);
+        }
+    }
 }
 
 fn b(x: bool) -> String {
@@ -93,38 +131,10 @@ pub fn generate(tier: Tier, rng: &mut Rng) -> Vec<Case> {
         Tier::Quick => 3,
         Tier::Thorough => 4,
     };
-    for (si, subset) in subsets(max_keys).iter().enumerate() {
-        let keys: Vec<&K> = subset.iter().map(|i| &ALPHABET[*i]).collect();
-        let lit = format!("{{{}}}", keys.iter().enumerate().map(|(j, k)| format!("{}: {}", k.src(), 10 + j)).collect::<Vec<_>>().join(", "));
-        let mut hm = HashMap::new();
-        for (j, k) in keys.iter().enumerate() {
-            hm.insert(k.key(), Value::Int(10 + j as i64));
-        }
-        let mut spec = CtxSpec::default_ctx();
-        spec.vars.push(("m".into(), Value::Map(Map { map: Arc::new(hm) })));
-        // quick tier: literal form for every subset, variable form for every third
-        let forms: Vec<(&CtxSpec, String, &'static str)> = if tier == Tier::Thorough || si % 3 == 0 { vec![(&default, lit.clone(), "literal"), (&spec, "m".to_string(), "variable")] } else { vec![(&default, lit.clone(), "literal")] };
-        for (sp, m, form) in forms {
-            for q in &QUERIES {
-                // presence: the typed key, or its numeric twin
-                let present = keys.iter().any(|k| k.same(q));
-                let tag = if keys.is_empty() { "empty" } else { "map" };
-                let src = format!("[{} in {m}, {m}.contains({}), {m}[{}] != null]", q.src(), q.src(), q.src());
-                push(&mut out, sp, src, Some(format!("(ok (list {} {} {}))", b(present), b(present), b(present))), vec![tag, form]);
-                if let K::S(name) = q {
-                    let src = format!("has({m}.{name})");
-                    push(&mut out, sp, src, Some(format!("(ok {})", b(present))), vec![tag, form, "has"]);
-                    if present {
-                        let src = format!("{m}.{name} == {m}['{name}']");
-                        push(&mut out, sp, src, Some(format!("(ok {})", b(true))), vec![tag, form, "select"]);
-                    }
-                }
-            }
-            // the map contains exactly the entries written
-            let src = format!("size({m})");
-            push(&mut out, sp, src, Some(format!("(ok (int {}))", keys.len())), vec![if keys.is_empty() { "empty" } else { "map" }, form, "size"]);
-        }
-    }
+    map_cases(&mut out, tier, &ALPHABET, &QUERIES, max_keys);
+    // keys at the edges of their ranges: negative ints, uints beyond i64, the i64 extremes, empty and
+    // non-ASCII strings (the int/uint twin lookup must not disturb keys that have no twin)
+    map_cases(&mut out, tier, &EXTREME, &EXTREME_QUERIES, 2);
     // lists: every index in -2..len+1 and the i64 extremes
     let vals = [7i64, -8, 9, 0];
     for len in 0..=4usize {
